@@ -80,7 +80,8 @@ SPEC = {
     "required": ["prim_conj_exact", "claiming_is_clifford", "param_prims_do_not_claim", "nonclaiming_refuse",
                  "named_wrappers_keep_defaults", "nonclaiming_refuse_term_partial", "loop0_nonclaiming_accepts",
                  "is_stabilizer_conjunction", "routing_sound", "conj_exact_of_term_general", "prims_exact_generated",
-                 "conj_exact_of_term", "conj_exact_kron_own_matrix", "identity_skips_arity_check"],
+                 "spec_unitary_of_term", "conj_exact_of_term", "claiming_term_is_clifford", "conj_exact_kron_own_matrix",
+                 "identity_skips_arity_check"],
     "drivers": ["drv_c06"],
     "harness_bin": "c06",
     "canon": canon,
@@ -110,7 +111,7 @@ def run(ctx):
     vlib.standard_flow(ctx, SPEC)
     ctx.assumptions += [
         "IEEE-754 rounding is outside the model: (B) compares G P G^H with +-P' to 1e-9 in double precision; the theorems are over the exact field Q(zeta_8) and over any commutative ring satisfying the amplitude laws",
-        "conj_exact_of_term is stated for the documented matrix Spec.specMatrix (composite = ordered product of embedded factors, loop = power); its equality with the model's own matrix() is proved for terms without Composite/Loop (C05 unitary_of_term) and is C04's corollary for Composite/Loop",
+        "conj_exact_of_term / claiming_term_is_clifford are stated for the documented matrix Spec.specMatrix (composite = ordered product of embedded factors, loop = power); its equality with the model's own matrix() is proved for terms without Composite/Loop (C05 unitary_of_term, used in conj_exact_kron_own_matrix) and is C04's corollary for Composite/Loop; the correspondence run compares the implementation's matrix() of every generated composite/loop with the rule directly (B)",
         "I::conjugate omits check_nr_bits (recorded in Gen.conjNoArityCheck and modelled): a wrong-length slice is accepted unchanged by I",
         "the representation chosen by execute_with_rng is observed through the verif_snapshot hook after the run",
     ]
